@@ -127,15 +127,16 @@ def outSeqB (sep : Option Bytes) (term : Bytes) (items : List (Bytes × Bool)) :
 /-! ### the `--stats` trailer
 
 `search`: `print_stats(mode, stats, started_at, searcher.printer().get_mut())` writes the trailer straight to
-stdout after the last file.  `search_parallel`: the trailer is written into the main searcher's (empty) buffer
-and handed to `bufwtr.print` — which treats it like any other buffer, so with a file separator configured
-(`--heading`, context) the separator line is written between the last file's block and the trailer. -/
+stdout after the last file.  `search_parallel` (since 78b4250): `print_stats(…, &mut args.stdout())` after the
+walk, straight to stdout as well.  (Before, the trailer was written into the main searcher's buffer and handed
+to `bufwtr.print`, which put the file separator in front of it like in front of any other buffer; that revert
+is a mutant.) -/
 
 def outSeqStats (sep : Option Bytes) (term : Bytes) (blks : List Bytes) (trailer : Bytes) : Bytes :=
   outSeq sep term blks ++ trailer
 
 def outParStats (sep : Option Bytes) (bufs : List Bytes) (trailer : Bytes) : Bytes :=
-  outPar sep (bufs ++ [trailer])
+  outPar sep bufs ++ trailer
 
 /-! ### `--files` with several threads: channel + one printing thread -/
 
